@@ -159,7 +159,8 @@ def maps_rules(ctx, P="C03"):
     code_loop = None
     for l in loops:
         it = fv.term(l["iter"])
-        if it[0] == "struct" and it[1].endswith("ops::Range"):
+        has_set_insert = any(x.get("k") == "mcall" and cname(x).endswith("Set::insert") for x in walk(l["body"]))
+        if it[0] == "struct" and it[1].endswith("ops::Range") and has_set_insert:
             code_loop = l
     if not alloc or code_loop is None:
         ctx.fail(P + ".K1", "kmer_pos_maps:shape", "table allocation / code loop not found", fv.fn["sp"])
@@ -192,15 +193,17 @@ def maps_rules(ctx, P="C03"):
     # K3: sorted before enumerate
     enum_loop = None
     for l in loops:
-        it = fv.term(l["iter"])
-        if it[0] == "call" and it[1].endswith("Iterator::enumerate"):
+        if l is code_loop:
+            continue
+        X_, idx_, _ = indexed_traversal(fv.term(l["iter"]))
+        if X_ is not None:
             enum_loop = l
     if enum_loop is None:
         ctx.fail(P + ".K3", "kmer_pos_maps:enumerate", "rank assignment loop (`.iter().enumerate()`) not found",
                  fv.fn["sp"])
         return
     it = fv.term(enum_loop["iter"])
-    vec_t = it[2][2] if it[2][0] == "call" and len(it[2]) > 2 else it[2]
+    vec_t, pos_t, is_elem = indexed_traversal(it)
     top = fv.body.get("stmts", [])
     idx_loop = next((i for i, s in enumerate(top) if s is enum_loop or (s.get("k") == "semi" and s["e"] is enum_loop)), None)
     sorted_before = False
@@ -222,12 +225,12 @@ def maps_rules(ctx, P="C03"):
               "built-from-set=%s — hash order must not reach a column index" % (sorted_before or ordered_set, src_ok),
               line_of(enum_loop))
     # K4: both maps from the same pair; count
-    item = ("item", it)
-    pos, kmer = ("proj", 0, item), ("proj", 1, item)
+    pos = pos_t
     asg = [n for n in walk(enum_loop["body"]) if n.get("k") == "assign"]
     ins2 = [n for n in walk(enum_loop["body"]) if n.get("k") == "mcall" and cname(n).endswith("Map::insert")]
-    ok1 = len(asg) == 1 and fv.term(asg[0]["l"])[0] == "index" and fv.term(asg[0]["l"])[2] == kmer \
+    ok1 = len(asg) == 1 and fv.term(asg[0]["l"])[0] == "index" and is_elem(fv.term(asg[0]["l"])[2]) \
         and fv.term(asg[0]["r"]) == pos
+    kmer = fv.term(asg[0]["l"])[2] if ok1 else ("none",)
     ctx.check(P + ".K4", "kmer_pos_maps:kmer_to_rank", ok1, "rank_of[kmer] = pos",
               "k-mer -> rank write is `%s = %s`, expected table[kmer] = pos"
               % ((show(fv.term(asg[0]["l"])), show(fv.term(asg[0]["r"]))) if asg else ("?", "?")),
@@ -243,7 +246,7 @@ def maps_rules(ctx, P="C03"):
               "kmer_pos_maps returns `%s`: a %s rank/k-mer wraps for larger k (4^k/2 ranks, 2k-bit codes)"
               % (rt, narrow[0] if narrow else ""), fv.fn["sp"])
     res = fv.term(fv.body.get("expr")) if fv.body.get("expr") else ("none",)
-    ok3 = res[0] == "tup" and len(res) == 4 and set_t is not None and is_len_of(res[3], set_t) \
+    ok3 = res[0] == "tup" and len(res) == 4 and set_t is not None and (is_len_of(res[3], set_t) or is_len_of(res[3], vec_t)) \
         and ok1 and res[1] == fv.term(asg[0]["l"])[1] and ok2 and res[2] == fv.term(ins2[0]["recv"])
     ctx.check(P + ".K4", "kmer_pos_maps:result", ok3, "returns (rank_of, kmer_of, |canonical set|)",
               "result `%s` is not (rank table, rank->kmer map, size of the canonical set)" % show(res),
